@@ -762,7 +762,7 @@ func TestChild(t *testing.T) {
 // ---- parent -----------------------------------------------------------------
 
 var stats = rig.NewStats("C06",
-	"rapid draws a concurrent program: 1-4 writer scripts (20-200 Handle / Remove / Remove(methods) / Prefix.Clean ops on ten toggled patterns chosen to split and re-merge the nodes of three never-touched routes) and 1-6 reader scripts (20-200 ops: requests to never-touched routes with per-op distinct parameter values, requests to toggled routes, OPTIONS / 405 probes, Routes(), strict URL), generated Gosched points, GOMAXPROCS in {2,4,16}; the program runs in a child process built with -race (halt_on_error) on a WithLock(true) router. Half of the programs run on a router that also has a TRACE handler. Oracle: no race report, no fatal runtime error, no deadlock (after 40 s every remaining program goroutine blocked on the router's lock), child exits 0; never-touched routes are always answered by their own handler with their own parameters and exact Allow sets; toggled requests get 404, or a handler / 405 / OPTIONS belonging to the very route they report with conforming parameters - never a zero or foreign handler; Routes() only lists program patterns and always the never-touched ones, and every listed pattern has OPTIONS and at least one more method (a listing is a snapshot of one state); strict URL of never-touched routes always succeeds. A third of the programs run with WithRecovery, a never-touched route whose handler panics and one whose interceptor function panics on one value, i.e. while the tree is searched under the read lock (readers request both: 500, own route, own parameters - and the router must go on working). A quarter of the programs reach the router through Group.ServeHTTP (router made by Group.New, matcher nil). One program in four is a mini program (2-4 writers x 1-4 operations on a duel pair or on a rival pair - one route under two parameter names - re-run 100-600 times on fresh routers). Once all goroutines have finished the state must be one a sequential router can be in: never both routes of a rival pair listed, every route that was registered and that nothing removes listed, and for every toggled route and seven methods Routes(), the node's method list and dispatch agree. Non-trivial: a program in which reader operations overlapped a writer operation (sampled with an atomic in-flight counter; the overlapping count is reported); distinct by hash of the program",
+	"rapid draws a concurrent program: 1-4 writer scripts (20-200 Handle / Remove / Remove(methods) / Prefix.Clean ops on ten toggled patterns chosen to split and re-merge the nodes of three never-touched routes) and 1-6 reader scripts (20-200 ops: requests to never-touched routes with per-op distinct parameter values, requests to toggled routes, OPTIONS / 405 probes, Routes(), strict URL), generated Gosched points, GOMAXPROCS in {2,4,16}; the program runs in a child process built with -race (halt_on_error) on a WithLock(true) router. Half of the programs run on a router that also has a TRACE handler. Oracle: no race report, no fatal runtime error, no deadlock (after 40 s every remaining program goroutine blocked on the router's lock), child exits 0; never-touched routes are always answered by their own handler with their own parameters and exact Allow sets; toggled requests get 404, or a handler / 405 / OPTIONS belonging to the very route they report with conforming parameters - never a zero or foreign handler; Routes() only lists program patterns and always the never-touched ones, and every listed pattern has OPTIONS and at least one more method (a listing is a snapshot of one state); strict URL of never-touched routes always succeeds. A third of the programs run with WithRecovery, a never-touched route whose handler panics and one whose interceptor function panics on one value, i.e. while the tree is searched under the read lock (readers request both: 500, own route, own parameters - and the router must go on working). A quarter of the programs reach the router through Group.ServeHTTP (router made by Group.New, matcher nil). One program in four is a mini program (2-4 writers x 1-4 operations on a duel pair or on a rival pair - one route under two parameter names - re-run 100-600 times on fresh routers). Once all goroutines have finished the state must be one a sequential router can be in: never both routes of a rival pair listed, every route that was registered and that nothing removes listed, and for every toggled route and seven methods Routes(), the node's method list and dispatch agree. Non-trivial: a program in which reader operations overlapped a writer operation (sampled with an atomic in-flight counter; the overlapping count is reported); distinct by hash of the program. Later additions to the generated domain: Writers also issue calls that by contract change nothing (removals naming only ignored / unknown / unregistered methods or absent patterns, registrations that must be refused) aimed at the never-touched routes, whose listing and dispatch are checked once more after all goroutines have finished; one program in six starts with 101-520 further never-touched routes and every reader then opens with Routes(). Two toggled routes are spelt {id:} / {-z:}; once all goroutines have finished, a toggled route that only one writer ever touches must be in the state that writer's own operations leave behind when run in order.",
 	"interleavings are sampled by the Go scheduler, not enumerated; the race detector's happens-before analysis flags unsynchronised access pairs once both accesses execute",
 	"Router.Use is not part of the program (the property does not list it)")
 
